@@ -192,7 +192,7 @@ impl SValue {
         if i2 == 0 {
             return SValue::from_i(0);
         }
-        SValue::from_i(i1 / i2)
+        SValue::from_i(i1.wrapping_div(i2)) // isize::MIN / -1 must not panic
     }
     pub fn lteq(&self, v: SValue) -> bool {
         match self {
@@ -236,14 +236,14 @@ impl SValue {
         match v {
             Self::Int(vi) => {
                 let si = self.to_i();
-                return Self::Int(si + vi);
+                return Self::Int(si.wrapping_add(vi));
             },
             _ => {},
         }
         // others
         let i1 = self.to_i();
         let i2 = v.to_i();
-        SValue::Int(i1 + i2)
+        SValue::Int(i1.wrapping_add(i2))
     }
 }
 
